@@ -86,9 +86,13 @@ TABLE = [
     ('R2', 'format!(..).to_string() -> vmsg()', re.compile(r'format!\((?:[^()"]|' + STR + r')*\)(?:\s*\.to_string\(\))?'), 'vmsg()'),
     ('R11', 'std::cmp::min -> vmin', re.compile(r'\bstd::cmp::min\('), 'vmin('),
     ('R11', 'std::mem::replace -> vreplace', re.compile(r'\bstd::mem::replace\('), 'vreplace('),
-    ('R11', 'std::mem::take -> vtake', re.compile(r'\bstd::mem::take\('), 'vtake('),
+    ('R11', 'std::mem::take -> vtake_vec', re.compile(r'\bstd::mem::take\('), 'vtake_vec('),
     ('R4', 'enum header <R: Read> -> <R: VStream>', re.compile(r'<R: Read>'), '<R: VStream>'),
     ('R4', 'brotli::Decompressor<Take<R>> -> VDecompressor<R>', re.compile(r'brotli::Decompressor<Take<(\w+)>>'), r'VDecompressor<\1>'),
+    ('R4', 'enum header <W: Write> -> <W: VSink>', re.compile(r'<W: Write>'), '<W: VSink>'),
+    ('R4', 'brotli::CompressorWriter<WriterWithCount<W>> -> VCompressorWriter<W>', re.compile(r'brotli::CompressorWriter<WriterWithCount<(\w+)>>'), r'VCompressorWriter<\1>'),
+    ('R4', 'brotli::CompressorWriter -> VCompressorWriter', re.compile(r'brotli::CompressorWriter\b'), 'VCompressorWriter'),
+    ('R10', 'X.write_u32::<LittleEndian>(V) -> vio_write_u32_le(&mut X, V)', re.compile(r'\b(\w+)\.write_u32::<LittleEndian>\('), r'vio_write_u32_le(&mut \1, '),
     ('R4', 'Cursor::new -> VCursor::new', re.compile(r'(?<![A-Za-z_:])Cursor::new\('), 'VCursor::new('),
     ('R8', '(&mut X).take(N).read_to_end(&mut V) -> vio_read_to_end_take',
      re.compile(r'\(&mut ([\w.]+)\)\s*\.take\(([^;]*?)\)\s*\.read_to_end\(&mut (\w+)\)'), r'vio_read_to_end_take(&mut \1, \2, &mut \3)'),
